@@ -11,6 +11,10 @@ Specification for C01: what a writer owes for every accepted write, keyed by *id
   – if that row is still pending and still has a slot of r (r was not unlinked since).  Closing a
   reader turns each entry of `owed r` into a deferred drop notice; `deliverDrop r` pops one and
   puts `dropped` into r's slot of that row.
+* An answer need not reach the writer at once: `pop r a` takes the oldest request off r's queue and
+  puts the answer *in flight*, `deliver r k` lets the k-th answer in flight of r arrive – in any
+  order, also after r was closed and its drop notices were delivered.  Whenever it arrives it
+  belongs to the write whose request was answered.  `answer r a` is `pop` and `deliver` in one step.
 * `unlink r` removes r's slot from every pending row.
 * After every change complete rows at the head are emitted, in order: the `join` of what the
   ACCEPTING readers that are still linked answered (refused slots contribute nothing), or `dropped`
@@ -57,6 +61,9 @@ structure S where
   done : Bool := false
   closed : RId → Bool := fun _ => false
   owed : RId → List Nat := fun _ => []
+  /-- answers on their way to the writer: the reader has taken the request of write `w` off its
+  queue and answered `a`, the writer has not received it yet -/
+  flight : RId → List (Ans × Nat) := fun _ => []
   nextW : Nat := 0
   emittedIds : List Nat := []
 
@@ -115,6 +122,18 @@ def step (s : S) : Step → S × Out
     else match s.owed r with
       | [] => (s, { ret := .ok false })
       | w :: rest => arrive { s with owed := fun x => if x = r then rest else s.owed x } w r a
+  | .pop r a =>
+    if s.closed r then (s, { ret := .ok false })
+    else match s.owed r with
+      | [] => (s, { ret := .ok false })
+      | w :: rest =>
+        ({ s with owed := fun x => if x = r then rest else s.owed x,
+                  flight := fun x => if x = r then s.flight r ++ [(a, w)] else s.flight x },
+         { ret := .ok true })
+  | .deliver r k =>
+    match (s.flight r)[k]? with
+    | none => (s, { ret := .skip })
+    | some e => arrive { s with flight := fun x => if x = r then (s.flight r).eraseIdx k else s.flight x } e.2 r e.1
   | .closeR r =>
     if s.closed r then (s, { ret := .cnt 0 })
     else ({ s with closed := fun x => if x = r then true else s.closed x }, { ret := .cnt (s.owed r).length })
